@@ -1706,6 +1706,11 @@ def check_C10(res):
             hv = 2 if cn in ('CanFdMessage64x',) else 1
             stream = struct.pack('<IHHII', 0x4A424F4C, 32, hv, osz, int(code)) + bytes(rng.choice([40, 120, 400])) + tail_obj
             files.append(wrap_stream(stream, rng.choice([64, 131072]))); kinds.append('size-sweep:%s:%d' % (cn, osz))
+    # objects of a type without codec (skipped by their declared size) with every kind of declared size, not first in the stream
+    for code in (0, 26, 52, 108, 116, 132, 65535, 2 ** 32 - 1):
+        for osz in (0, 1, 15, 16, 17, 31, 32, 100, 2 ** 15, 2 ** 16 - 1, 2 ** 31 - 1, 2 ** 31, 2 ** 31 + 16, 2 ** 32 - 16, 2 ** 32 - 1):
+            stream = tail_obj + struct.pack('<IHHII', 0x4A424F4C, 16, 1, osz, code) + bytes(rng.choice([0, 8, 40])) + tail_obj + tail_obj
+            files.append(wrap_stream(stream, rng.choice([64, 131072]))); kinds.append('unknown-type-size:%d:%d' % (code, osz))
     decoder_safety(res, pipe, summary, rng)
     os.environ['VERIF_CAP'] = str(256 * 1024 * 1024)
     r, mr = fc.read_files(res, files, fexe)
@@ -1801,6 +1806,8 @@ def classify_hostile(f, a, ma, kind=''):
     why = 'other'
     if kind.startswith('size-sweep'):
         return oc + ':declared-size-smaller-than-default-layout:' + kind.split(':')[1]
+    if kind.startswith('unknown-type-size'):
+        return oc + ':unknown-type-object-with-declared-size-' + ('above-2^31' if int(kind.split(':')[2]) >= 2 ** 31 else 'small')
     # walk the containers
     pos = 144
     stream = b''
